@@ -2,13 +2,18 @@ package c13
 
 import (
 	"reflect"
+
+	ucfg "github.com/elastic/go-ucfg"
+
+	"verif/internal/model"
 )
 
 // polCtx is the list policy in force at a point of the target type and where
 // it comes from.
 type polCtx struct {
-	pol string // default, append, prepend, replace, arr-replace
-	src string // none, global, tag, inherited-tag
+	pol  string // default, append, prepend, replace, arr-replace
+	src  string // none, global, tag, inherited-tag
+	over string // src tag / inherited-tag: the policy the tag option overrides
 }
 
 // childOf: the policy for the fields below a field (the doc comment: the tag
@@ -16,7 +21,7 @@ type polCtx struct {
 // sub-fields").
 func (p polCtx) below() polCtx {
 	if p.src == "tag" {
-		return polCtx{p.pol, "inherited-tag"}
+		return polCtx{p.pol, "inherited-tag", p.over}
 	}
 	return p
 }
@@ -26,9 +31,42 @@ func (f *field) policy(parent polCtx) polCtx {
 	case "":
 		return parent
 	case "merge":
-		return polCtx{"default", "tag"}
+		return polCtx{"default", "tag", parent.pol}
 	}
-	return polCtx{f.tagPol, "tag"}
+	return polCtx{f.tagPol, "tag", parent.pol}
+}
+
+// overridesOuter: a tag option is in force where another policy would be
+// without it.
+func (p polCtx) overridesOuter() bool {
+	return (p.src == "tag" || p.src == "inherited-tag") && p.over != p.pol
+}
+
+var modelPolicies = map[string]model.Policy{
+	"default":     model.PDefault,
+	"append":      model.PAppend,
+	"prepend":     model.PPrepend,
+	"replace":     model.PReplace,
+	"arr-replace": model.PArrReplace,
+}
+
+// mergeConfigTrees: what a *Config field holding pre (nil: the field is nil)
+// holds after a setting is unpacked into it under pol -- the merge model of C01.
+func mergeConfigTrees(pre, setting *model.Node, pol string) *model.Node {
+	if pre == nil {
+		return setting.Copy()
+	}
+	to := pre.Copy()
+	model.Merge(to, setting.Copy(), nil, model.Global(modelPolicies[pol]))
+	return to
+}
+
+func newConfig(n *model.Node) *ucfg.Config {
+	c, err := ucfg.NewFrom(n.ToGo(), ucfg.PathSep("."))
+	if err != nil {
+		return nil
+	}
+	return c
 }
 
 func replaces(p polCtx) bool { return p.pol == "replace" || p.pol == "arr-replace" }
@@ -38,6 +76,10 @@ func replaces(p polCtx) bool { return p.pol == "replace" || p.pol == "arr-replac
 type modeler struct {
 	// unmodelled: struct-list fields under a replacing policy (not demanded)
 	unmodelled map[*field]bool
+	// cfgs: the trees the pre-filled *Config fields were built from (by pointer)
+	cfgs map[uintptr]*model.Node
+	// cfgExp: the tree every mentioned *Config field has to hold afterwards
+	cfgExp map[*field]*model.Node
 }
 
 func applyInit(v reflect.Value) {
@@ -114,6 +156,21 @@ func (m *modeler) applyField(f *field, v reflect.Value, cv *cval, pc polCtx) {
 		for i := 0; i < v.Len() && i < len(cv.list); i++ {
 			v.Index(i).Set(cv.list[i].want)
 		}
+	case kConfig:
+		if absent {
+			return
+		}
+		var pre *model.Node
+		if !v.IsNil() {
+			pre = m.cfgs[v.Pointer()]
+		}
+		exp := mergeConfigTrees(pre, cv.node, pc.pol)
+		if m.cfgExp != nil {
+			m.cfgExp[f] = exp
+		}
+		if c := newConfig(exp); c != nil {
+			v.Set(reflect.ValueOf(c))
+		}
 	case kMapPrim, kMapPtrStruct, kMapStruct:
 		if absent {
 			return
@@ -158,7 +215,7 @@ func (m *modeler) mergeList(f *field, pre reflect.Value, cv *cval, pol string) r
 		if base = deref(base); base.IsValid() {
 			e.Set(base)
 		}
-		(&modeler{}).applyStruct(f.sub, e, cv.list[i], polCtx{"default", "none"})
+		(&modeler{}).applyStruct(f.sub, e, cv.list[i], polCtx{"default", "none", ""})
 		if f.elemPtr {
 			return p
 		}
